@@ -5,7 +5,7 @@ import re
 
 from ..core import rule
 from ..peval import Builtin, Interp, Namespace, Obj, PyExc
-from ..srcmodel import AnalysisError, norm
+from ..srcmodel import AnalysisError, norm, own_nodes
 
 TARGETS = ["cpu_serial", "cpu_openmp", "opencl", "cuda"]
 
@@ -205,7 +205,7 @@ OPENCL_WIDTH = {"long": 8, "int": 4, "short": 2, "char": 1, "unsigned long": 8, 
 CUDA_WIDTH = {"signed long long": 8, "long long": 8, "signed int": 4, "int": 4, "signed short": 2, "short": 2, "signed char": 1, "char": 1, "unsigned long long": 8, "unsigned int": 4, "unsigned short": 2, "unsigned char": 1}
 
 
-@rule("S10", ["C15"], "target headers: integer typedefs have the widths the accessor templates assume; CUDA typedefs restricted to CUDA")
+@rule("S10", ["C15", "C16"], "target headers: integer typedefs have the widths the accessor templates assume; CUDA typedefs restricted to CUDA")
 def s10(cx):
     m = cx.m
     for modname, var, widths, sign_kw in (("context_pyopencl", "openclheader", OPENCL_WIDTH, "unsigned"), ("context_cupy", "cudaheader", CUDA_WIDTH, "unsigned")):
@@ -233,7 +233,48 @@ def s10(cx):
         cx.check(f"headers = {hdr} + list(extra_headers)" in src, f, construct=f"headers = {hdr} + list(extra_headers)", detail="typedefs precede every class API", bad_detail="target header is not placed first", sub="first")
         tgt = "cuda" if "cupy" in spec else "opencl"
         cx.check(f"specialize_for='{tgt}'" in src, f, construct=f"specialize_source(..., specialize_for='{tgt}')", detail="context specialises for its own target", bad_detail="context specialises for another target", sub="target")
+    # ---- one predicate decides "this is an OpenMP context" at every site that depends on it: the specialisation target
+    # (cpu_openmp vs cpu_serial: which //only_for_context lines and which include files are active), the omp.h header,
+    # the -fopenmp flags and the omp_set_num_threads call.  A context for which the sites disagree runs code
+    # specialised for the other CPU target (seeded C16-b selected the target by the thread count).
+    from ..flow import Flow as _Flow
+
+    prop = m.func("context_cpu::ContextCpu.openmp_enabled")
+    pr = [r for r in own_nodes(prop) if isinstance(r, ast.Return) and r.value is not None]
+    prop_body = norm(pr[0].value) if len(pr) == 1 else None
+
+    def canon(txt):
+        # the property and its body are the same predicate
+        if prop_body is not None:
+            txt = txt.replace("self.openmp_enabled", f"({prop_body})") if txt != "self.openmp_enabled" else prop_body
+        return txt
+
+    def omp_guards(fn, pred):
+        fl_ = _Flow(fn)
+        out_ = []
+        for n in own_nodes(fn):
+            if pred(n):
+                gs = [(canon(norm(c.test).replace("self.context.", "self.")), c.pol) for c in fl_.conds_at(n) if c.kind == "if" and ("openmp" in norm(c.test).lower() or "omp_" in norm(c.test).lower())]
+                out_.append((n, gs))
+        return out_
+
     f = m.func("context_cpu::ContextCpu._build_sources")
-    src = norm(f)
-    ok = "specialize_for = 'cpu_openmp'" in src and "specialize_for = 'cpu_serial'" in src and "if self.openmp_enabled" in src
-    cx.check(ok, f, construct="ContextCpu: cpu_openmp if openmp_enabled else cpu_serial", detail="CPU context picks its target from the OpenMP setting", bad_detail="CPU target selection changed", sub="target")
+    tgt_sites = omp_guards(f, lambda n: isinstance(n, ast.Assign) and norm(n.targets[0]) == "specialize_for" and isinstance(n.value, ast.Constant) and n.value.value in ("cpu_openmp", "cpu_serial"))
+    hdr_sites = omp_guards(f, lambda n: isinstance(n, ast.Constant) and isinstance(n.value, str) and "omp.h" in n.value)
+    ck = m.func("context_cpu::ContextCpu.compile_kernel")
+    flag_sites = omp_guards(ck, lambda n: isinstance(n, ast.Constant) and n.value == "-fopenmp")
+    kc = m.func("context_cpu::KernelCpu.__call__")
+    call_sites = omp_guards(kc, lambda n: isinstance(n, ast.Call) and norm(n.func).endswith("omp_set_num_threads"))
+    cx.recog(len(tgt_sites) == 2 and hdr_sites and flag_sites and call_sites, f, "OpenMP-dependent sites (target selection x2, omp.h, -fopenmp, omp_set_num_threads)")
+    ref_pred = {g for _, gs in hdr_sites + flag_sites for g in gs if g[1]}
+    cx.recog(len(ref_pred) == 1, f, f"one positive OpenMP predicate guarding omp.h and -fopenmp (found {sorted(ref_pred)})")
+    (ptxt, _), = ref_pred
+    for n, gs in tgt_sites:
+        want_pol = n.value.value == "cpu_openmp"
+        mine = [g for g in gs]
+        ok = (ptxt, want_pol) in mine
+        other = [g for g in mine if g[0] != ptxt]
+        cx.check(ok and not other, n, construct=f"specialize_for = {n.value.value!r} under {[('' if p_ else 'not ') + t for t, p_ in mine]}", detail=f"selected by the same predicate `{ptxt}` that enables omp.h / -fopenmp / omp_set_num_threads",
+                 bad_detail=f"the target is selected by {[('' if p_ else 'not ') + t for t, p_ in mine]} while OpenMP compilation is selected by `{ptxt}`: a context for which the two differ is built and run with OpenMP but specialised for the other CPU target (its //only_for_context lines and include files are those of the wrong target)", sub="target")
+    for n, gs in call_sites:
+        cx.check((ptxt, True) in gs, n, construct=f"omp_set_num_threads under {[('' if p_ else 'not ') + t for t, p_ in gs]}", detail="thread count applied exactly in OpenMP contexts", bad_detail=f"omp_set_num_threads is not guarded by `{ptxt}`", sub="target")
